@@ -753,7 +753,22 @@ pub fn suite_text_raw(ctx: &mut Ctx, suite: &str, n: u64) {
         }
         let k = r.below(14);
         for _ in 0..k {
-            src.push_str(*r.pick(RAW_ATOMS));
+            if r.chance(1, 12) {
+                // a long name with digits of one, two, three and four bytes (identifiers may contain any Unicode `Nd`):
+                // 20 to 70 bytes, so that every byte offset up to there falls inside a character for some name —
+                // as a variable, or in front of `(` as the name of a function that does not exist
+                let target = 20 + r.below(51) as usize;
+                let mut name = String::from(*r.pick(&["v", "f", "_", "Q"]));
+                while name.len() < target {
+                    name.push_str(*r.pick(&["a", "7", "_", "\u{663}", "\u{967}", "\u{1D7CE}", "\u{663}", "\u{967}"]));
+                }
+                src.push_str(&name);
+                if r.chance(1, 2) {
+                    src.push_str(*r.pick(&["(", "(1)", "(1,2);", " (3)"]));
+                }
+            } else {
+                src.push_str(*r.pick(RAW_ATOMS));
+            }
             if r.chance(1, 3) {
                 src.push(' ');
             }
